@@ -27,10 +27,13 @@ from vlib import Reporter, ToolError, log
 FLAVOURS = {"sync_digraph": True, "sync_ungraph": False}
 SHARDS = 8
 TIERS = {
-    "quick": dict(nodes=2, threads=2, max_calls=1, init_edges=2, max_exec=6000),
+    "quick": dict(nodes=2, threads=2, max_calls=1, init_edges=1, max_exec=6000,
+                  extra=[dict(nodes=3, threads=3, max_calls=1, init_edges=1, max_exec=6000, rotational=True, pre_bound=2)]),
     "thorough": dict(nodes=2, threads=2, max_calls=2, init_edges=1, max_exec=20000,
-                     extra=[dict(nodes=3, threads=2, max_calls=1, init_edges=2, max_exec=20000),
-                            dict(nodes=2, threads=3, max_calls=1, init_edges=1, max_exec=20000)]),
+                     extra=[dict(nodes=2, threads=2, max_calls=1, init_edges=2, max_exec=20000),
+                            dict(nodes=3, threads=2, max_calls=1, init_edges=2, max_exec=20000),
+                            dict(nodes=2, threads=3, max_calls=1, init_edges=1, max_exec=20000),
+                            dict(nodes=3, threads=3, max_calls=1, init_edges=2, max_exec=20000, rotational=True, pre_bound=3)]),
 }
 
 
@@ -65,7 +68,8 @@ def run(pid, tier, seed):
     for fi, fam in enumerate(fams):
         for fl, directed in FLAVOURS.items():
             c = {"Nodes": set(range(1, fam["nodes"] + 1)), "Vals": {1}, "Directed": directed,
-                 "Threads": set(range(1, fam["threads"] + 1)), "MaxCalls": fam["max_calls"], "MaxInitEdges": fam["init_edges"]}
+                 "Threads": set(range(1, fam["threads"] + 1)), "MaxCalls": fam["max_calls"], "MaxInitEdges": fam["init_edges"],
+                 "Rotational": bool(fam.get("rotational", False))}
             r = vlib.run_tlc("MC_Locks", vlib.cfg_text(c, spec="LSpec", invariants=["Progress"]), "%s/mc_%s_f%d" % (tag, fl, fi),
                              workers=16, timeout=6000, collect_prints=False, heap="24g")
             if r.violation or not r.ok:
@@ -74,7 +78,7 @@ def run(pid, tier, seed):
             states += r.distinct
             transitions += r.generated
             models.append({"model": "MC_Locks", "flavour": fl, "Nodes": fam["nodes"], "Threads": fam["threads"], "MaxCalls": fam["max_calls"],
-                           "MaxInitEdges": fam["init_edges"], "distinct_states": r.distinct})
+                           "MaxInitEdges": fam["init_edges"], "rotational": bool(fam.get("rotational", False)), "distinct_states": r.distinct})
             model = {}
             for o in vlib.tlc_json_lines(r.out_file):
                 model.setdefault(scen_key(o), {"g0": o["g0"], "prog": o["prog"], "outs": {}})["outs"][key(norm_model(o))] = o["verdict"]
@@ -92,7 +96,10 @@ def run(pid, tier, seed):
                 with open(sfi, "w") as f:
                     for k in keys[sh::nsh]:
                         f.write(json.dumps({"g0": model[k]["g0"], "prog": model[k]["prog"]}) + "\n")
-                jobs.append(("sched", {"flavour": fl, "scenarios": sfi, "outcomes": "%s.%d" % (of, sh), "max-executions": fam["max_exec"]},
+                so = {"flavour": fl, "scenarios": sfi, "outcomes": "%s.%d" % (of, sh), "max-executions": fam["max_exec"]}
+                if fam.get("pre_bound") is not None:
+                    so["preemption-bound"] = fam["pre_bound"]
+                jobs.append(("sched", so,
                              os.path.join(d, "sched_%s_f%d_%d.json" % (fl, fi, sh))))
             parts = vlib.harness_parallel(jobs, timeout=10000)
             with open(of, "w") as f:
@@ -134,7 +141,7 @@ def run(pid, tier, seed):
                 if len(rep.cov["samples"]) < 6 and len(sc["outcomes"]) > 1:
                     rep.cov["samples"].append({"flavour": fl, "g0": sc["g0"], "prog": sc["prog"], "schedules_explored": sc["schedules_explored"],
                                                "outcomes": [x["outcome"] for x in sc["outcomes"]][:4]})
-                if sc["schedules_explored"] < fam["max_exec"]:
+                if sc["schedules_explored"] < fam["max_exec"] and fam.get("pre_bound") is None:
                     drift_model_only += len(set(m["outs"]) - seen)
             if pending:
                 tr = os.path.join(d, "adj_%s_f%d.ndjson" % (fl, fi))
